@@ -331,10 +331,13 @@ class Inliner:
                     for c_ in self.prog.mro(f.cls):
                         for nm_, mem_ in c_.members.items():
                             v_ = getattr(mem_.attr, "value", None) if mem_.attr is not None else None
+                            def _lit(x_):
+                                # a constant, or a dotted name of a constant (`Element.Unknown`)
+                                return isinstance(x_, ast.Constant) or (isinstance(x_, ast.Attribute) and isinstance(x_.value, ast.Name))
                             if nm_ not in cc and isinstance(v_, (ast.Tuple, ast.List)) and v_.elts and all(
-                                    isinstance(e_, ast.Constant) or (isinstance(e_, ast.Tuple) and all(isinstance(x_, ast.Constant) for x_ in e_.elts)) for e_ in v_.elts):
+                                    _lit(e_) or (isinstance(e_, ast.Tuple) and all(_lit(x_) for x_ in e_.elts)) for e_ in v_.elts):
                                 cc[nm_] = v_
-                if unroll_literal_loops(node, f.module.top, cc):
+                if unroll_literal_loops(node, f.module.top, cc, class_names={c_.name for c_ in self.prog.mro(f.cls)} if f.cls is not None else ()):
                     changed = True
                     from .normalize import desugar_attr_builtins as _dab, fold_substituted_tests as _fst
 
